@@ -516,7 +516,7 @@ func judgeConc(r *vf.Run, w *world, c *concCase, logs [][]event) {
 			var lastZero *event
 			for j := range all {
 				o := all[j]
-				if o.ret >= e.call || c.keys[o.key].imgNo != k.imgNo {
+				if o.call >= e.call || c.keys[o.key].imgNo != k.imgNo {
 					continue
 				}
 				if o.op == "release" && o.n == 0 && o.key == e.key {
@@ -528,7 +528,7 @@ func judgeConc(r *vf.Run, w *world, c *concCase, logs [][]event) {
 					if c.keys[o.key].imgNo != k.imgNo || o.key == e.key {
 						continue
 					}
-					if o.op == "use" && o.ret < lastZero.call {
+					if o.op == "use" && o.call < lastZero.call {
 						outstanding++
 					}
 					if o.op == "release" && o.call < lastZero.ret {
